@@ -44,6 +44,7 @@ void FunctorManager::reset(const FunctorManager& fm)
   if (&fm == this)
     return;
   _backed.reset();
+  _backed_id = nid;
   _declarations.clear();
   // don't copy the cache of context
   for (const Entry& e : fm._declarations)
@@ -75,14 +76,18 @@ bool FunctorManager::nameExists(const std::string& name) const
 FunctorManager::Entry& FunctorManager::createOrReplace(const std::string& name, const std::vector<Symbol>& params)
 {
   _backed.reset();
+  _backed_id = nid;
+  unsigned id = 0;
   for (Entry& e : _declarations)
   {
     if (e.functor->name == name && e.functor->params.size() == params.size())
     {
       /* back up current declaration */
       _backed.swap(e.functor);
+      _backed_id = id;
       return e;
     }
+    ++id;
   }
   _declarations.emplace_back(Entry(FunctorPtr(new Functor())));
   return _declarations.back();
@@ -94,13 +99,10 @@ void FunctorManager::rollback()
     return;
   if (_backed)
   {
-    /* revert last change, restoring the backed up */
-    if (_declarations.back().functor->name == _backed->name &&
-            _declarations.back().functor->params.size() == _backed->params.size())
-    {
-      _declarations.back().functor.swap(_backed);
-      return;
-    }
+    /* revert last change, restoring the backed up wherever it was declared */
+    if (_backed_id < _declarations.size())
+      _declarations[_backed_id].functor.swap(_backed);
+    _backed_id = nid;
   }
   else
   {
